@@ -105,9 +105,17 @@ def ob_roundtrip(fft, cp, used):
             inp = it.call(it.getattr(o, "_prepare_input_signal"), [x])
             unused = [k for k in range(fft) if k not in idx]
             goals.append(Goal("n=%d: unused carriers carry exactly zero" % n, all((inp[r, k] == 0) is True or inp[r, k] == 0 for r in range(nsym) for k in unused)))
-            rx = it.call(it.getattr(o, "demodulate"), [tx.copy()])
+            buf = tx.copy()
+            held = list(buf.flat)
+            rx = it.call(it.getattr(o, "demodulate"), [buf])
             want = np.concatenate([x, np.zeros(nsym * used - n, dtype=object)])
             goals.append(Goal("n=%d: demodulate(modulate(x)) == x ++ zeros" % n, _meq(rx, want)))
+            # frame: the samples in the caller's receive buffer are not altered (its shape may be; pinned behaviour), so a second
+            # receiver working on the same buffer gets the same symbols
+            goals.append(Goal("n=%d: the receive buffer still holds the received samples" % n,
+                              buf.size == len(held) and all(a is b for a, b in zip(buf.flat, held))))
+            rx2 = it.call(it.getattr(o, "demodulate"), [buf])
+            goals.append(Goal("n=%d: demodulating the same buffer again gives the same symbols" % n, _meq(np.asarray(rx2).ravel(), want)))
         return goals
     return verify(body, check_side=False, timeout_ms=60000)
 
@@ -268,7 +276,14 @@ def ob_native():
         fresh = ofdm.OFDM(fft, cp, used)
         if (not (np.abs(fresh.modulate(x) - tx).max() <= 1e-12)):
             return {"differs from a fresh object with the same parameters": True}
-        rx = o.demodulate(tx.copy())      # (demodulate reshapes the array it is given - pinned behaviour, outside the property)
+        buf = tx.copy()
+        snap = buf.ravel().copy()
+        rx = o.demodulate(buf)            # (demodulate reshapes the array it is given - pinned behaviour, outside the property)
+        if buf.size != snap.size or not np.array_equal(buf.ravel(), snap):
+            return {"demodulate altered the samples of the receive buffer": True, "fft": fft, "cp": cp, "used": used}
+        rx_again = o.demodulate(buf)
+        if np.asarray(rx_again).size != np.asarray(rx).size or (not (np.abs(np.asarray(rx_again).ravel() - np.asarray(rx).ravel()).max() <= 0)):
+            return {"second demodulation of the same buffer differs": True, "fft": fft, "cp": cp, "used": used}
         again = o.modulate(rr.randn(n) + 1j * rr.randn(n))       # a later transmission of the same size on the same object
         if fr.changed():
             return {"frame": fr.changed() + " (by a later modulate of the same object)", "fft": fft, "cp": cp, "used": used}
